@@ -113,7 +113,18 @@ func ImportModuleLevelObject(ctx Context, name string, globals, locals StringDic
 		}
 	}
 
-	module, err := RunFile(ctx, srcPathname, opts, name)
+	// Resolve separately from running: a name that resolves to no file on
+	// the search path is a missing module (ImportError), whereas an error
+	// raised while the module's code runs must propagate unchanged.
+	out, err := ctx.ResolveAndCompile(srcPathname, opts)
+	if err != nil {
+		if IsException(FileNotFoundError, err) {
+			return nil, ExceptionNewf(ImportError, "No module named '%s'", name)
+		}
+		return nil, err
+	}
+
+	module, err := RunCode(ctx, out.Code, out.FileDesc, name)
 	if err != nil {
 		return nil, err
 	}
